@@ -119,6 +119,21 @@ pub struct ProdLog {
 struct PanicStamp(Arc<ProdLog>);
 impl Drop for PanicStamp { fn drop(&mut self) { if std::thread::panicking() { self.0.panicked_at.store(stamp(), SeqCst) } } }
 
+/// the guard a thread that sends on its own account (not through `producer_body`) keeps while it runs: stamps the moment its thread unwinds from a panic
+pub fn panic_stamp(log: &Arc<ProdLog>) -> impl Drop { log.tid.store(sched::my_tid() as u32, SeqCst); PanicStamp(log.clone()) }
+/// one send attempt, recorded like those of `producer_body`
+pub fn send_logged(ch: &dyn Chan, entry: Entry, id: u64, log: &ProdLog) -> SendRes {
+    let t0 = stamp();
+    log.open_id.store(id, SeqCst);
+    log.open_call.store(t0, SeqCst);
+    let r = send_via(ch, entry, id);
+    let t1 = stamp();
+    log.open_call.store(0, SeqCst);
+    log.calls.lock().unwrap().push((id, t0, t1, r == SendRes::Ok));
+    if r == SendRes::Ok { log.accepted.lock().unwrap().push(id) } else { log.rejected.lock().unwrap().push(id) }
+    r
+}
+
 /// A producer: sends `ids` in order through `entry`; a rejected send is retried up to `retries` times, then given up
 pub fn producer_body(ch: Arc<dyn Chan>, entry: Entry, ids: Vec<u64>, retries: u32, log: Arc<ProdLog>) -> Body {
     Box::new(move || {
